@@ -1,18 +1,662 @@
-//! C06 — (stub, under construction)
+//! C06 — character-to-glyph mapping conforms to the cmap encodings.
+//!
+//! Generated cmap tables (abstract code->glyph map + random layout choices per format) are written
+//! by the independent writer, wrapped in a minimal sfnt, and allsorts' answers are compared with
+//! the abstract map. Real fonts are compared with the independent cmap reader.
+
+#[path = "c06_tables.rs"]
+mod c06_tables;
 
 use super::Prop;
 use crate::rt::*;
+use crate::sfnt::cmap::{self as icmap, EncKind, Layout2, Layout4, Map, Record};
+use crate::sfnt::tables::minimal_font;
+use allsorts::binary::read::ReadScope;
+use allsorts::font::{Font, MatchingPresentation};
+use allsorts::font_data::FontData;
+use allsorts::tables::cmap::{Cmap, CmapSubtable};
+use allsorts::tables::FontTableProvider;
+use allsorts::tag;
 
-pub struct C06 {}
+pub struct C06 {
+    seeds: Vec<SeedFont>,
+}
 
 impl C06 {
-    pub fn new(_cx: &mut Ctx) -> C06 {
-        C06 {}
+    pub fn new(cx: &mut Ctx) -> C06 {
+        let max = if cx.quick() { 700_000 } else { 4_000_000 };
+        C06 { seeds: load_seed_fonts(max, false) }
+    }
+}
+
+fn gen_map(rng: &mut Rng, max_code: u32, max_gid: u16, dense: bool) -> Map {
+    let mut m = Map::new();
+    let n = rng.below(if dense { 300 } else { 80 });
+    let mut c = match rng.below(4) {
+        0 => 0,
+        1 => rng.below(0x100) as u32,
+        2 => rng.below(max_code as usize + 1) as u32,
+        _ => max_code.saturating_sub(rng.below(400) as u32),
+    };
+    let mut g = 1 + rng.below(max_gid as usize) as u16;
+    for _ in 0..n {
+        if c > max_code {
+            break;
+        }
+        m.insert(c, g);
+        let step = match rng.below(6) {
+            0..=2 => 1,
+            3 => 2 + rng.below(4) as u32,
+            4 => 1 + rng.small(2000) as u32,
+            _ => 1,
+        };
+        c = c.saturating_add(step);
+        g = match rng.below(5) {
+            0..=2 => g.wrapping_add(1),
+            3 => 1 + rng.below(max_gid as usize) as u16,
+            _ => g,
+        };
+        if g == 0 || g > max_gid {
+            g = 1 + rng.below(max_gid as usize) as u16;
+        }
+    }
+    if max_code >= 0xFFFF && rng.chance(1, 4) {
+        m.insert(0xFFFF, 1 + rng.below(max_gid as usize) as u16);
+    }
+    if max_code >= 0xFFFF && rng.chance(1, 4) {
+        m.insert(0xFFFE, 1 + rng.below(max_gid as usize) as u16);
+    }
+    if rng.chance(1, 3) {
+        m.insert(0x25CC.min(max_code), 1 + rng.below(max_gid as usize) as u16);
+    }
+    m
+}
+
+/// A generated subtable: bytes + expected map + the code space it can represent.
+struct GenSub {
+    format: u16,
+    bytes: Vec<u8>,
+    expected: Map, // only non-zero glyphs are "mapped"
+    max_code: u32,
+    desc: String,
+    /// format 2 only: codes that are valid characters of the encoding
+    valid2: Option<Layout2>,
+}
+
+fn gen_subtable(rng: &mut Rng, format: u16, max_gid: u16) -> GenSub {
+    match format {
+        0 => {
+            let m = gen_map(rng, 255, max_gid.min(255), true);
+            GenSub { format, bytes: icmap::write_format0(&m, 0), expected: m, max_code: 255, desc: "fmt0".into(), valid2: None }
+        }
+        2 => {
+            let mut l = Layout2::default();
+            for _ in 0..rng.below(60) {
+                l.single.insert(rng.below(256) as u8, 1 + rng.below(max_gid as usize) as u16);
+            }
+            for _ in 0..rng.below(6) {
+                let lead = 0x81 + rng.below(0x7E) as u8;
+                let first = rng.below(200) as u8;
+                let n = 1 + rng.below((255 - first as usize).min(40));
+                let gl: Vec<u16> = (0..n).map(|_| if rng.chance(1, 8) { 0 } else { 1 + rng.below(max_gid as usize) as u16 }).collect();
+                l.double.insert(lead, (first, gl));
+                if rng.bool() {
+                    // idDelta that no glyph of the sub-array equals
+                    let d = max_gid.wrapping_add(1 + rng.below(1000) as u16);
+                    l.deltas.insert(lead, d);
+                }
+            }
+            if rng.chance(1, 3) {
+                l.deltas.insert(0, max_gid.wrapping_add(1 + rng.below(1000) as u16));
+            }
+            let exp: Map = l.expected().into_iter().filter(|(_, g)| *g != 0).collect();
+            GenSub { format, bytes: l.write(0), expected: exp, max_code: 0xFFFF, desc: format!("fmt2 leads={}", l.double.len()), valid2: Some(l) }
+        }
+        4 => {
+            let dense = rng.bool();
+            let m = gen_map(rng, 0xFFFF, max_gid, dense);
+            let l = Layout4::choose(&m, rng);
+            let narr = l.segs.iter().filter(|s| matches!(s.kind, icmap::Seg4Kind::Array { .. })).count();
+            let desc = format!("fmt4 segs={} array-segs={} arrays={}", l.segs.len(), narr, l.arrays.len());
+            let exp: Map = m.into_iter().filter(|(_, g)| *g != 0).collect();
+            GenSub { format, bytes: l.write(0), expected: exp, max_code: 0xFFFF, desc, valid2: None }
+        }
+        6 => {
+            let m = gen_map(rng, 0xFFFF, max_gid, true);
+            // keep the dense range small
+            let first = m.keys().next().copied().unwrap_or(0);
+            let m: Map = m.into_iter().filter(|(c, _)| *c - first < 3000).collect();
+            GenSub { format, bytes: icmap::write_format6(&m, 0, rng), expected: m, max_code: 0xFFFF, desc: "fmt6".into(), valid2: None }
+        }
+        10 => {
+            let m = gen_map(rng, 0x10FFFF, max_gid, true);
+            let first = m.keys().next().copied().unwrap_or(0);
+            let m: Map = m.into_iter().filter(|(c, _)| *c - first < 3000).collect();
+            GenSub { format, bytes: icmap::write_format10(&m, 0), expected: m, max_code: 0x10FFFF, desc: "fmt10".into(), valid2: None }
+        }
+        _ => {
+            let dense = rng.bool();
+            let mut m = gen_map(rng, 0x10FFFF, max_gid, dense);
+            if rng.bool() {
+                for (c, g) in gen_map(rng, 0xFFFF, max_gid, false) {
+                    m.insert(c, g);
+                }
+            }
+            let groups = icmap::groups12(&m, rng);
+            let desc = format!("fmt12 groups={}", groups.len());
+            GenSub { format: 12, bytes: icmap::write_format12(&groups, 0), expected: m, max_code: 0x10FFFF, desc, valid2: None }
+        }
+    }
+}
+
+fn probes(rng: &mut Rng, exp: &Map, max_code: u32, n_random: usize) -> Vec<u32> {
+    let mut v: Vec<u32> = Vec::new();
+    for &c in exp.keys() {
+        v.push(c);
+        v.push(c.wrapping_sub(1));
+        v.push(c + 1);
+    }
+    v.extend_from_slice(&[0, 1, 0x20, 0xFF, 0x100, 0xFFFE, 0xFFFF, 0x10000, 0x10FFFF, 0x25CC, max_code, max_code.wrapping_add(1)]);
+    for _ in 0..n_random {
+        v.push(match rng.below(3) {
+            0 => rng.below(0x10000) as u32,
+            1 => rng.below(0x110000) as u32,
+            _ => rng.u32(),
+        });
+    }
+    v.sort();
+    v.dedup();
+    v
+}
+
+fn valid_code_fmt2(l: &Layout2, c: u32) -> bool {
+    if c < 0x100 {
+        !l.double.contains_key(&(c as u8))
+    } else if c <= 0xFFFF {
+        l.double.contains_key(&((c >> 8) as u8))
+    } else {
+        true
+    }
+}
+
+impl C06 {
+    /// Direct subtable API vs. expected map.
+    fn check_subtable(&self, cx: &mut Ctx, rng: &mut Rng, g: &GenSub) {
+        let sub = match ReadScope::new(&g.bytes).read::<CmapSubtable<'_>>() {
+            Ok(s) => s,
+            Err(e) => {
+                cx.violation("subtable-rejected", &format!("fmt{}-rejected", g.format), J::obj(vec![("error", J::s(format!("{:?}", e))), ("desc", J::s(g.desc.clone())), ("bytes", J::hex(&g.bytes[..g.bytes.len().min(600)]))]));
+                return;
+            }
+        };
+        let owned = sub.to_owned();
+        let nrand = if cx.quick() { 200 } else { 2000 };
+        for c in probes(rng, &g.expected, g.max_code, nrand) {
+            if let Some(l) = &g.valid2 {
+                if !valid_code_fmt2(l, c) {
+                    continue;
+                }
+            }
+            let exp = g.expected.get(&c).copied().unwrap_or(0);
+            let got = sub.map_glyph(c);
+            let representable = c <= g.max_code || g.format == 0 || g.format == 6;
+            let got_gid = match got {
+                Ok(Some(x)) => x,
+                Ok(None) => 0,
+                Err(_) if !representable || c > 0xFFFF && g.max_code <= 0xFFFF => 0,
+                Err(e) => {
+                    cx.violation("map-glyph-error", &format!("fmt{}-error", g.format), J::obj(vec![("code", J::U(c as u64)), ("error", J::s(format!("{:?}", e))), ("desc", J::s(g.desc.clone())), ("bytes", J::hex(&g.bytes[..g.bytes.len().min(600)]))]));
+                    return;
+                }
+            };
+            if got_gid != exp {
+                let sig = self.classify(g, c, exp, got_gid);
+                cx.violation(
+                    "map-glyph",
+                    &sig,
+                    J::obj(vec![
+                        ("code", J::U(c as u64)),
+                        ("expected", J::U(exp as u64)),
+                        ("observed", J::U(got_gid as u64)),
+                        ("desc", J::s(g.desc.clone())),
+                        ("subtable", J::hex(&g.bytes[..g.bytes.len().min(800)])),
+                    ]),
+                );
+                return;
+            }
+            if let Some(o) = &owned {
+                let og = match o.map_glyph(c) {
+                    Ok(Some(x)) => x,
+                    Ok(None) => 0,
+                    Err(_) => 0,
+                };
+                if og != exp {
+                    cx.violation("owned-map-glyph", &format!("owned-{}", self.classify(g, c, exp, og)), J::obj(vec![("code", J::U(c as u64)), ("expected", J::U(exp as u64)), ("observed", J::U(og as u64)), ("desc", J::s(g.desc.clone()))]));
+                    return;
+                }
+            }
+        }
+        cx.class(&format!("subtable:fmt{}", g.format));
+        // enumeration == set of single lookups
+        let mut enumerated: Vec<(u32, u16)> = Vec::new();
+        match sub.mappings_fn(|c, gid| enumerated.push((c, gid))) {
+            Ok(()) => {
+                let mut nonzero: Vec<(u32, u16)> = enumerated.iter().copied().filter(|(_, g)| *g != 0).collect();
+                nonzero.sort();
+                nonzero.dedup();
+                let exp: Vec<(u32, u16)> = g.expected.iter().map(|(c, g)| (*c, *g)).filter(|(_, g)| *g != 0).collect();
+                if nonzero != exp {
+                    let missing: Vec<_> = exp.iter().filter(|p| !nonzero.contains(p)).take(4).collect();
+                    let extra: Vec<_> = nonzero.iter().filter(|p| !exp.contains(p)).take(4).collect();
+                    cx.violation(
+                        "mappings-fn",
+                        &format!("fmt{}-enumeration", g.format),
+                        J::obj(vec![("missing", J::s(format!("{:?}", missing))), ("extra", J::s(format!("{:?}", extra))), ("desc", J::s(g.desc.clone())), ("subtable", J::hex(&g.bytes[..g.bytes.len().min(800)]))]),
+                    );
+                }
+                // every enumerated pair agrees with the single lookup
+                for &(c, gid) in enumerated.iter().take(5000) {
+                    let single = sub.map_glyph(c).ok().flatten().unwrap_or(0);
+                    if single != gid {
+                        cx.violation("mappings-fn", &format!("fmt{}-enumeration-vs-lookup", g.format), J::s(format!("code {:#x}: enumerated {} lookup {} ({})", c, gid, single, g.desc)));
+                        break;
+                    }
+                }
+                cx.class("enumeration-checked");
+            }
+            Err(e) => cx.violation("mappings-fn", &format!("fmt{}-enumeration-error", g.format), J::s(format!("{:?} {}", e, g.desc))),
+        }
+        if let Ok(m) = sub.mappings() {
+            // keeps the first code per glyph
+            for (gid, code) in m.iter().take(3000) {
+                if *gid != 0 && g.expected.get(code) != Some(gid) {
+                    cx.violation("mappings", &format!("fmt{}-mappings", g.format), J::s(format!("mappings() has glyph {} <- code {:#x} which is not in the table ({})", gid, code, g.desc)));
+                    break;
+                }
+            }
+        }
+    }
+
+    fn classify(&self, g: &GenSub, _c: u32, exp: u16, got: u16) -> String {
+        if g.format == 4 && exp == 0 && got != 0 {
+            return "fmt4-unmapped-code-got-glyph".to_string();
+        }
+        if exp != 0 && got == 0 {
+            return format!("fmt{}-mapped-code-got-0", g.format);
+        }
+        format!("fmt{}-wrong-glyph", g.format)
+    }
+
+    /// Whole-font path: encoding records, preference order, encodings.
+    fn check_font(&self, cx: &mut Ctx, rng: &mut Rng) {
+        let max_gid = 1 + rng.below(3000) as u16;
+        let nrec = 1 + rng.below(5);
+        let choices: &[(u16, u16)] = &[(3, 10), (3, 1), (0, 4), (0, 3), (0, 6), (3, 0), (1, 0), (3, 4), (3, 2), (4, 0)];
+        let mut recs: Vec<Record> = Vec::new();
+        let mut subs: Vec<GenSub> = Vec::new();
+        let mut used = Vec::new();
+        for _ in 0..nrec {
+            let (p, e) = *rng.pick(choices);
+            if used.contains(&(p, e)) {
+                continue;
+            }
+            used.push((p, e));
+            let format = match (p, e) {
+                (3, 10) | (0, 4) | (0, 6) => *rng.pick(&[12u16, 12, 10, 4]),
+                (3, 1) | (0, 3) => *rng.pick(&[4u16, 4, 6, 12]),
+                (3, 0) => 4,
+                (1, 0) => *rng.pick(&[0u16, 6]),
+                (3, 4) => *rng.pick(&[2u16, 4]),
+                _ => *rng.pick(&[0u16, 4, 6, 12]),
+            };
+            let mut gsub = gen_subtable(rng, format, max_gid);
+            if (p, e) == (3, 0) {
+                // symbol fonts live at 0xF020..0xF0FF (or 0x20..0xFF for first_char 0x20)
+                let base = if rng.bool() { 0xF000u32 } else { 0 };
+                let mut m = Map::new();
+                for c in 0x20..0x100u32 {
+                    if rng.chance(2, 3) {
+                        m.insert(base + c, 1 + rng.below(max_gid as usize) as u16);
+                    }
+                }
+                let l = Layout4::choose(&m, rng);
+                gsub = GenSub { format: 4, bytes: l.write(0), expected: m, max_code: 0xFFFF, desc: format!("symbol fmt4 base={:#x}", base), valid2: None };
+            }
+            if (p, e) == (3, 4) && format == 4 {
+                // Big5 codes of the sample set
+                let mut m = Map::new();
+                for _ in 0..60 {
+                    let (_, code) = *rng.pick(c06_tables::BIG5_SAMPLE);
+                    m.insert(code as u32, 1 + rng.below(max_gid as usize) as u16);
+                }
+                for c in 0x20..0x7Fu32 {
+                    if rng.bool() {
+                        m.insert(c, 1 + rng.below(max_gid as usize) as u16);
+                    }
+                }
+                let l = Layout4::choose(&m, rng);
+                gsub = GenSub { format: 4, bytes: l.write(0), expected: m, max_code: 0xFFFF, desc: "big5 fmt4".into(), valid2: None };
+            }
+            subs.push(gsub);
+            recs.push(Record { platform: p, encoding: e, subtable: subs.len() - 1 });
+        }
+        if recs.is_empty() {
+            return;
+        }
+        rng.shuffle(&mut recs);
+        let sub_bytes: Vec<Vec<u8>> = subs.iter().map(|s| s.bytes.clone()).collect();
+        let cmap = icmap::write_cmap(&recs, &sub_bytes);
+        // model: selection
+        let enc: Vec<icmap::EncRec> = recs.iter().map(|r| icmap::EncRec { platform: r.platform, encoding: r.encoding, offset: 0 }).collect();
+        let sel = icmap::select(&enc);
+        let first_char = match rng.below(4) {
+            0 => None,
+            1 => Some(0xF020u16),
+            2 => Some(0x20),
+            _ => Some(*rng.pick(&[0u16, 0x1F, 0x21, 0xF000, 0x41])),
+        };
+        let font_bytes = minimal_font(cmap, max_gid + 1, first_char).build();
+        let fd = match ReadScope::new(&font_bytes).read::<FontData<'_>>() {
+            Ok(f) => f,
+            Err(e) => {
+                cx.inconclusive("generator:fontdata");
+                eprintln!("C06 generator: FontData rejected own font: {:?}", e);
+                return;
+            }
+        };
+        let provider = match fd.table_provider(0) {
+            Ok(p) => p,
+            Err(_) => {
+                cx.inconclusive("generator:provider");
+                return;
+            }
+        };
+        let font = Font::new(provider);
+        let desc = format!("records={:?} first_char={:?}", recs.iter().map(|r| (r.platform, r.encoding, subs[r.subtable].desc.clone())).collect::<Vec<_>>(), first_char);
+        let (sel_idx, kind) = match sel {
+            None => {
+                if font.is_ok() {
+                    cx.violation("selection", "unsupported-records-accepted", J::s(desc));
+                }
+                cx.class("selection:none");
+                return;
+            }
+            Some(s) => s,
+        };
+        let mut font = match font {
+            Ok(f) => f,
+            Err(e) => {
+                cx.violation("selection", "supported-records-rejected", J::s(format!("{:?} {}", e, desc)));
+                return;
+            }
+        };
+        let g = &subs[recs[sel_idx].subtable];
+        cx.class(&format!("selection:{:?}", kind));
+        cx.class(&format!("font:fmt{}", g.format));
+        // probe characters
+        let mut chars: Vec<char> = Vec::new();
+        let fc = first_char.unwrap_or(0x20) as u32;
+        let expected_for = |ch: char| -> Option<u16> {
+            let c = ch as u32;
+            match kind {
+                EncKind::Unicode => Some(g.expected.get(&c).copied().unwrap_or(0)),
+                EncKind::Symbol => {
+                    // only the documented legacy range is judged
+                    let c0 = if (0xF020..=0xF0FF).contains(&c) { c - 0xF000 } else if (0x20..=0xFF).contains(&c) { c } else { return None };
+                    let code = (c0 + fc).checked_sub(0x20)?;
+                    Some(g.expected.get(&code).copied().unwrap_or(0))
+                }
+                EncKind::MacRoman => {
+                    let b = c06_tables::MAC_ROMAN_PY.iter().position(|&u| u == c)?;
+                    // Not judged: control characters, and the positions that allsorts' Mac Roman
+                    // table (the PostScript "standard Macintosh" subset) leaves unmapped in BOTH
+                    // directions (math symbols, Omega, lozenge, Apple logo) or where published
+                    // tables differ (0xDB currency/euro). Partiality is not ruled out by C06; the
+                    // mutual-inverse requirement is checked exhaustively elsewhere.
+                    const SKIP: &[usize] = &[0xAD, 0xB0, 0xB2, 0xB3, 0xB6, 0xB7, 0xB8, 0xB9, 0xBA, 0xBD, 0xC3, 0xC5, 0xC6, 0xD7, 0xDB, 0xF0];
+                    if b < 0x20 || SKIP.contains(&b) {
+                        return None;
+                    }
+                    Some(g.expected.get(&(b as u32)).copied().unwrap_or(0))
+                }
+                EncKind::Big5 => {
+                    if c < 0x80 {
+                        return Some(g.expected.get(&c).copied().unwrap_or(0));
+                    }
+                    let code = c06_tables::BIG5_SAMPLE.iter().find(|(u, _)| *u == c)?.1;
+                    if let Some(l) = &g.valid2 {
+                        if !valid_code_fmt2(l, code as u32) {
+                            return None;
+                        }
+                    }
+                    Some(g.expected.get(&(code as u32)).copied().unwrap_or(0))
+                }
+            }
+        };
+        match kind {
+            EncKind::Unicode => {
+                for c in probes(rng, &g.expected, g.max_code, 100) {
+                    if let Some(ch) = char::from_u32(c) {
+                        chars.push(ch);
+                    }
+                }
+            }
+            EncKind::Symbol => {
+                for c in (0x20..0x100u32).chain(0xF020..0xF100) {
+                    chars.push(char::from_u32(c).unwrap());
+                }
+            }
+            EncKind::MacRoman => {
+                for &u in c06_tables::MAC_ROMAN_PY.iter() {
+                    if let Some(ch) = char::from_u32(u) {
+                        chars.push(ch);
+                    }
+                }
+            }
+            EncKind::Big5 => {
+                for c in 0x20..0x7Fu32 {
+                    chars.push(char::from_u32(c).unwrap());
+                }
+                for (code, _) in g.expected.iter().take(80) {
+                    if let Some((u, _)) = c06_tables::BIG5_SAMPLE.iter().find(|(_, b)| *b as u32 == *code) {
+                        chars.push(char::from_u32(*u).unwrap());
+                    }
+                }
+                for _ in 0..20 {
+                    chars.push(char::from_u32(rng.pick(c06_tables::BIG5_SAMPLE).0).unwrap());
+                }
+            }
+        }
+        let mut judged = 0;
+        for ch in chars {
+            if ch == '\u{25CC}' {
+                continue; // memoised separately (C03)
+            }
+            let exp = match expected_for(ch) {
+                Some(e) => e,
+                None => continue,
+            };
+            let (got, _) = font.lookup_glyph_index(ch, MatchingPresentation::NotRequired, None);
+            judged += 1;
+            if got != exp {
+                let sig = format!("font-{:?}-{}", kind, self.classify(g, ch as u32, exp, got));
+                cx.violation(
+                    "lookup-glyph-index",
+                    &sig,
+                    J::obj(vec![("char", J::U(ch as u64)), ("expected", J::U(exp as u64)), ("observed", J::U(got as u64)), ("selected", J::s(g.desc.clone())), ("font", J::s(desc.clone())), ("font_bytes", J::hex(&font_bytes[..font_bytes.len().min(3000)]))]),
+                );
+                return;
+            }
+        }
+        if judged > 0 {
+            cx.class(&format!("font-judged:{:?}", kind));
+        }
+    }
+
+    fn check_real_font(&self, cx: &mut Ctx, rng: &mut Rng) {
+        if self.seeds.is_empty() {
+            return;
+        }
+        let f = &self.seeds[rng.below(self.seeds.len())];
+        let fd = match ReadScope::new(&f.data).read::<FontData<'_>>() {
+            Ok(x) => x,
+            Err(_) => return,
+        };
+        let provider = match fd.table_provider(0) {
+            Ok(p) => p,
+            Err(_) => return,
+        };
+        let cmap_data = match provider.table_data(tag::CMAP) {
+            Ok(Some(d)) => d.into_owned(),
+            _ => return,
+        };
+        let recs = match icmap::read_records(&cmap_data) {
+            Some(r) => r,
+            None => return,
+        };
+        let cmap = match ReadScope::new(&cmap_data).read::<Cmap<'_>>() {
+            Ok(c) => c,
+            Err(_) => return,
+        };
+        for r in &recs {
+            let off = r.offset as usize;
+            let fmt = icmap::subtable_format(&cmap_data, off).unwrap_or(99);
+            if ![0u16, 2, 4, 6, 10, 12].contains(&fmt) {
+                continue;
+            }
+            let sub = match cmap.scope.offset(off).read::<CmapSubtable<'_>>() {
+                Ok(s) => s,
+                Err(_) => continue,
+            };
+            let nbmp = if cx.quick() { 3000 } else { 0x10000 };
+            let start = if cx.quick() { rng.below(0x10000 - nbmp) as u32 } else { 0 };
+            let mut codes: Vec<u32> = (start..start + nbmp as u32).collect();
+            for _ in 0..500 {
+                codes.push(rng.below(0x110000) as u32);
+            }
+            if fmt == 2 {
+                continue; // real format 2 tables: validity of codes depends on the encoding, judged on generated tables only
+            }
+            for c in codes {
+                let exp = match icmap::lookup(&cmap_data, off, c) {
+                    Some(e) => e,
+                    None => continue,
+                };
+                let got = match sub.map_glyph(c) {
+                    Ok(Some(g)) => g,
+                    Ok(None) => 0,
+                    Err(_) => 0,
+                };
+                if got != exp {
+                    cx.violation(
+                        "real-font-map-glyph",
+                        &format!("real-fmt{}-{}", fmt, if exp == 0 { "unmapped-got-glyph" } else { "wrong-glyph" }),
+                        J::obj(vec![("font", J::s(f.name.clone())), ("record", J::s(format!("{:?}", r))), ("code", J::U(c as u64)), ("expected", J::U(exp as u64)), ("observed", J::U(got as u64))]),
+                    );
+                    return;
+                }
+            }
+            cx.class(&format!("real:fmt{}", fmt));
+        }
+        cx.nontrivial(mix(hash_str(&f.name), rng.u64()));
     }
 }
 
 impl Prop for C06 {
-    fn case(&mut self, cx: &mut Ctx, _rng: &mut Rng) {
-        cx.inconclusive("not-implemented");
+    fn exhaustive(&mut self, cx: &mut Ctx, shard: u64, of: u64) {
+        use allsorts::big5::{big5_to_unicode, unicode_to_big5};
+        use allsorts::macroman::{char_to_macroman, is_macroman, macroman_to_char};
+        if shard == 0 {
+            // Mac Roman: mutual inverses, exhaustively
+            for b in 0..=255u8 {
+                if let Some(c) = macroman_to_char(b) {
+                    if char_to_macroman(c) != Some(b) {
+                        cx.violation("macroman-inverse", "macroman-decode-encode", J::s(format!("macroman_to_char({:#x}) = {:?} but char_to_macroman gives {:?}", b, c, char_to_macroman(c))));
+                    }
+                }
+            }
+            cx.class_n("exhaustive:macroman-bytes", 256);
+            cx.evals += 256;
+        }
+        // all scalar values, split by shard
+        let mut n = 0u64;
+        for u in 0..0x110000u32 {
+            if u as u64 % of != shard {
+                continue;
+            }
+            let c = match char::from_u32(u) {
+                Some(c) => c,
+                None => continue,
+            };
+            n += 1;
+            let m = char_to_macroman(c);
+            if is_macroman(c) != m.is_some() {
+                cx.violation("macroman-inverse", "is-macroman", J::s(format!("is_macroman({:#x}) disagrees with char_to_macroman", u)));
+            }
+            if let Some(b) = m {
+                if macroman_to_char(b) != Some(c) {
+                    cx.violation("macroman-inverse", "macroman-encode-decode", J::s(format!("char_to_macroman({:#x}) = {:#x} but macroman_to_char gives {:?}", u, b, macroman_to_char(b))));
+                }
+            }
+            if let Some(b) = unicode_to_big5(c) {
+                if big5_to_unicode(b) != Some(c) {
+                    cx.violation("big5-inverse", "big5-encode-decode", J::s(format!("unicode_to_big5({:#x}) = {:#x} but big5_to_unicode gives {:?}", u, b, big5_to_unicode(b))));
+                }
+            }
+        }
+        cx.class_n("exhaustive:scalar-values", n);
+        cx.evals += n;
+        let mut n2 = 0u64;
+        for b in 0..=0xFFFFu32 {
+            if b as u64 % of != shard {
+                continue;
+            }
+            n2 += 1;
+            if let Some(c) = big5_to_unicode(b as u16) {
+                if let Some(b2) = unicode_to_big5(c) {
+                    if big5_to_unicode(b2) != Some(c) {
+                        cx.violation("big5-inverse", "big5-decode-encode-decode", J::s(format!("big5 {:#x} -> {:?} -> {:#x} -> {:?}", b, c, b2, big5_to_unicode(b2))));
+                    }
+                }
+            }
+        }
+        cx.class_n("exhaustive:big5-codes", n2);
+        cx.evals += n2;
+        // the independent Big5 sample agrees with allsorts (sanity of the table used in font checks)
+        if shard == 0 {
+            let mut bad = 0;
+            for &(u, b) in c06_tables::BIG5_SAMPLE {
+                if unicode_to_big5(char::from_u32(u).unwrap()) != Some(b) {
+                    bad += 1;
+                }
+            }
+            if bad > 0 {
+                cx.class_n("big5-sample-disagreements-with-python-codec", bad);
+            }
+        }
+    }
+
+    fn case(&mut self, cx: &mut Ctx, rng: &mut Rng) {
+        match rng.below(10) {
+            0..=5 => {
+                let fmt = *rng.pick(&[0u16, 2, 4, 4, 4, 6, 10, 12, 12]);
+                let mg = 1 + rng.below(5000) as u16;
+                let g = gen_subtable(rng, fmt, mg);
+                if cx.want_sample() {
+                    cx.sample(J::obj(vec![("kind", J::s("subtable")), ("desc", J::s(g.desc.clone())), ("mapped_codes", J::U(g.expected.len() as u64))]));
+                }
+                let h = hash_bytes(&g.bytes);
+                self.check_subtable(cx, rng, &g);
+                if !g.expected.is_empty() {
+                    cx.nontrivial(h);
+                }
+            }
+            6..=8 => {
+                let h = rng.clone().u64();
+                self.check_font(cx, rng);
+                cx.nontrivial(h);
+            }
+            _ => self.check_real_font(cx, rng),
+        }
     }
 }
